@@ -55,6 +55,18 @@ func gen(c *run.Ctx, cs Case) *pipe.Workload {
 	case "reader-raw":
 		o.ReaderMode = true
 		return pipe.GenRaw(r, o)
+	case "samelines":
+		return pipe.GenSameLines(r)
+	case "gone":
+		// some named paths cannot be opened: the lines of all the others are still read exactly once, and the run ends
+		var w *pipe.Workload
+		if cs.Index%2 == 0 {
+			w = pipe.GenStructured(r, o)
+		} else {
+			w = pipe.GenRaw(r, o)
+		}
+		c.Count("unopenable_paths_named", int64(pipe.AddGone(r, w)))
+		return w
 	case "aligned":
 		return pipe.GenAligned(r, false)
 	case "reader-aligned":
@@ -122,11 +134,13 @@ func Run(c *run.Ctx) {
 		{"reader-raw", c.N(20, 400)},
 		{"aligned", c.N(12, 200)},
 		{"reader-aligned", c.N(6, 100)},
+		{"samelines", c.N(48, 800)},
+		{"gone", c.N(24, 400)},
 		{"cli", c.N(32, 480)},
 		{"cli-stdin", c.N(8, 120)},
 	}
 	if c.Flavour == "race" {
-		plans = []plan{{"structured", 700}, {"raw", 500}, {"reader-structured", 200}, {"reader-raw", 100}, {"aligned", 60}, {"reader-aligned", 30}}
+		plans = []plan{{"structured", 700}, {"raw", 500}, {"reader-structured", 200}, {"reader-raw", 100}, {"aligned", 60}, {"reader-aligned", 30}, {"samelines", 100}}
 	}
 	idx := 0
 	for _, nm := range pinnedNames {
